@@ -130,10 +130,13 @@ impl Visitor<Diagnostic> for RuleDeclaredEnumeratedValues<'_> {
     ) -> Result<Self::Value, Diagnostic> {
         let defined_values = self.find_enum_declaration_values(&init.type_name)?;
         if let Some(value) = &init.initial_value {
-            // TODO this is using the Id, but not the full enumerated value
-            // and we don't have declared appropriate comparison between things
-            // that are known but partially declared
-            if !defined_values.contains(value) {
+            // The value is one of the enumeration's values if the names match. The
+            // value may be written with the type name as a prefix (`LEVEL#INFO`) while
+            // the declaration lists the values without one, so compare only the names.
+            if !defined_values
+                .iter()
+                .any(|defined| defined.value == value.value)
+            {
                 return Err(Diagnostic::problem(
                     Problem::EnumValueNotDefined,
                     Label::span(value.span(), "Expected value in enumeration"),
